@@ -117,6 +117,7 @@ pub fn visibility(property: &'static str, vis: Vis, clients: usize) -> ReplCell 
         hold_updates: 1,
         mutations: MutMenu::Hold,
         leftover_choice: false,
+        lossy: false,
     };
     c
 }
@@ -217,6 +218,54 @@ pub fn two_clients(property: &'static str) -> ReplCell {
         hold_updates: 1,
         mutations: MutMenu::Hold,
         leftover_choice: true,
+        lossy: false,
+    };
+    c
+}
+
+/// Tiny maximum message size: every entity travels in its own mutate message, and the link is
+/// lossy (mutate messages not delivered in a step are lost for good).
+pub fn split_lossy(property: &'static str) -> ReplCell {
+    let mut c = base("split-lossy", property);
+    c.cfg.clients = vec![16];
+    c.init = vec![Op::Spawn(0, M_A), Op::Spawn(1, M_A), Op::Spawn(2, M_A)];
+    c.alphabet = vec![Op::Nop, Op::Mut(0, TA), Op::Mut(1, TA), Op::Mut(2, TA)];
+    c.env = Env {
+        hold_acks: true,
+        hold_updates: 0,
+        mutations: MutMenu::Full,
+        leftover_choice: true,
+        lossy: true,
+    };
+    c
+}
+
+/// Entities without any replicated component under a list policy: visibility granted in a
+/// later tick than the spawn, components inserted later.
+pub fn vis_empty(property: &'static str, vis: Vis) -> ReplCell {
+    let tag = if vis == Vis::Blacklist { "black" } else { "white" };
+    let mut c = base(&format!("vis-empty-{tag}"), property);
+    c.cfg.vis = vis;
+    c.init = vec![Op::Spawn(0, AB)];
+    if vis == Vis::Whitelist {
+        c.init.push(Op::Vis(0, 0, true));
+    }
+    c.alphabet = vec![
+        Op::Nop,
+        Op::Spawn(1, 0),
+        Op::Vis(0, 1, true),
+        Op::Vis(0, 1, false),
+        Op::Ins(1, TA),
+        Op::Despawn(1),
+        Op::Unmark(1),
+        Op::Mark(1),
+    ];
+    c.env = Env {
+        hold_acks: false,
+        hold_updates: 1,
+        mutations: MutMenu::Hold,
+        leftover_choice: false,
+        lossy: false,
     };
     c
 }
